@@ -14,6 +14,9 @@ import time
 VERIF = os.path.dirname(os.path.dirname(os.path.abspath(__file__)))
 REPO = os.environ.get("VERIF_REPO", "/repo")
 BUILD = os.path.join(VERIF, "build")
+# per-invocation scratch directory for generated units (the mutation self-test runs several checks of the
+# same property side by side); cargo target directories stay shared under BUILD
+WORK = os.environ.get("VERIF_WORK", BUILD)
 EXTRACTOR = os.path.join(VERIF, "extractor", "target", "release", "extractor")
 
 PRELUDE_ORDER = [
